@@ -177,7 +177,8 @@ def build():
             "handed_to_the_pickler_exactly_once": "n_ev() == 1 and ev(0)[0] == 'Pickler.save'",
             "plain_values_reach_the_pickler_themselves": "implies(not is_tag(obj, 'boundmethod') and not is_tag(obj, 'builtinmethod'), ev(0)[1] is obj)",
             "methods_are_replaced_by_their_identifying_parts": "implies(is_tag(obj, 'boundmethod') or is_tag(obj, 'builtinmethod'), is_tag(ev(0)[1], 'myhash') and ev(0)[1].parts[1] is obj.__self__ "
-                                                               "and ev(0)[1].parts[0] is (obj.__func__.__name__ if is_tag(obj, 'boundmethod') else obj.__name__))",
+                                                               "and ev(0)[1].parts[0] is (obj.__func__.__name__ if is_tag(obj, 'boundmethod') else obj.__name__) "
+                                                               "and len(ev(0)[1].parts) == 3 and ev(0)[1].parts[2] is obj.__self__.__class__)",
             "the_digest_is_fed_from_the_finished_stream_only": "n_events('hash.update') == 0",
         },
     ))
